@@ -149,3 +149,42 @@ def install_crystal_contract(which=('C18',)):
             group_contract(mon, self)
 
     attach(crystal.Crystal, '__init__', post)
+
+
+# ---------------------------------------------------------------------------------------
+# C03: transport tensors are symmetric, crystal invariant and (where stated) PSD
+# ---------------------------------------------------------------------------------------
+def tensor2_contract(mon, crys, T, name, psd, scale=None, tol=1e-9, prefix='C03'):
+    T = np.asarray(T)
+    dim = crys.dim
+    mon.count('tensors_checked')
+    if not mon.check(T.shape == (dim, dim) and bool(np.all(np.isfinite(T))), prefix + ':finite:' + name,
+                     lambda: 'shape %s value %s' % (T.shape, T.tolist())):
+        return
+    sc = scale if scale is not None else max(np.abs(T).max(), 1e-300)
+    mon.close(T, T.T, tol, prefix + ':symmetric:' + name, scale=sc)
+    worst = max(np.abs(g.cartrot @ T @ g.cartrot.T - T).max() for g in crys.G)
+    mon.seen('point_group_orders', len(crys.G))
+    mon.check(worst <= tol * sc, prefix + ':invariant:' + name, lambda: 'max_g |R T R^T - T| = %.3e scale %.3e T=%s' % (worst, sc, T.tolist()))
+    mon.note_max('relerr:' + prefix + ':invariant:' + name, worst / sc)
+    if psd:
+        lam = np.linalg.eigvalsh(0.5 * (T + T.T)).min()
+        mon.note_min('psd_margin:' + name, lam / sc)
+        mon.check(lam >= -tol * sc, prefix + ':psd:' + name, lambda: 'lambda_min=%.3e scale %.3e T=%s' % (lam, sc, T.tolist()))
+
+
+def tensor4_contract(mon, crys, T, name, scale=None, tol=1e-9, prefix='C03'):
+    """elastodiffusion d_abcd: symmetric in (ab) and in (cd), invariant under the point group."""
+    T = np.asarray(T)
+    dim = crys.dim
+    mon.count('tensors_checked')
+    if not mon.check(T.shape == (dim,) * 4 and bool(np.all(np.isfinite(T))), prefix + ':finite:' + name, 'shape %s' % (T.shape,)):
+        return
+    sc = scale if scale is not None else max(np.abs(T).max(), 1e-300)
+    mon.close(T, T.transpose(1, 0, 2, 3), tol, prefix + ':symmetric:' + name + ':ab', scale=sc)
+    mon.close(T, T.transpose(0, 1, 3, 2), tol, prefix + ':symmetric:' + name + ':cd', scale=sc)
+    worst = 0.
+    for g in crys.G:
+        R = g.cartrot
+        worst = max(worst, np.abs(np.einsum('ai,bj,ck,dl,ijkl->abcd', R, R, R, R, T) - T).max())
+    mon.check(worst <= tol * sc, prefix + ':invariant:' + name, lambda: 'max_g |R.R.R.R.T - T| = %.3e scale %.3e' % (worst, sc))
